@@ -119,7 +119,11 @@ def run(spec, ctx):
                 ctx.current = {"table": [list(t) for t in table][:40], "data": data[:400]}
                 ctx.case(repr(table) + data.hex(), any(data[k:k + 8] != b"\0" * 8 for k in range(0, len(data) - 7, 8)),
                          sample={"table": [list(t) for t in table][:3], "data_hex": data[:32].hex()} if i == 0 else None)
-                ilog.parse_ilog_data(memoryview(data) if rng.random() < 0.5 else data, path)
+                try:
+                    ilog.parse_ilog_data(memoryview(data) if rng.random() < 0.5 else data, path)
+                except Exception as e:
+                    ctx.violation("C14/decoder-raised/" + type(e).__name__, "parse_ilog_data raised %r" % (e,), data=data[:400],
+                                  table=[list(t) for t in table][:50])
         return
     from io_drawer.drawer_type import MEX_DRAWER_TYPE, NIMITZ_DRAWER_TYPE
     dt = MEX_DRAWER_TYPE if spec["which"] == "mex" else NIMITZ_DRAWER_TYPE
@@ -137,7 +141,11 @@ def run(spec, ctx):
         note(ctx, data)
         ctx.current = {"table": spec["which"], "data": data[:400]}
         ctx.case(spec["which"] + data.hex(), True)
-        res = ilog.parse_ilog_data(memoryview(data), path)
+        try:
+            res = ilog.parse_ilog_data(memoryview(data), path)
+        except Exception as e:
+            ctx.violation("C14/decoder-raised/" + type(e).__name__, "parse_ilog_data raised %r" % (e,), data=data[:400])
+            continue
         ctx.counters["shipped.entries_checked"] += len(res) - 2
 
 
